@@ -19,7 +19,7 @@ import z3
 
 from . import core, sums, source
 from .core import ObjV, SymList, MapSeq, LArr, LArr2, HeapArr1, HeapArr2, Unsupported, CheckerError, is_z3, to_z3num, to_real, fresh, conj, disj, neg, ite, NONE
-from .interp import Interp, Obligation, QFact, ForallV, ExistsV, explore, Chooser, _Return, _Raise, _Continue, Infeasible, concrete_int, is_arr
+from .interp import ImpliesV, Interp, Obligation, QFact, ForallV, ExistsV, explore, Chooser, _Return, _Raise, _Continue, Infeasible, concrete_int, is_arr
 
 
 TrackingHeap = core.Heap
@@ -122,6 +122,19 @@ def goal_of(it, v):
         pre, g = goal_of(it, v[2])
         plain = conj(*v[1])
         return [], z3.And(core.to_bool(plain) if not isinstance(plain, bool) else z3.BoolVal(plain), z3.Implies(z3.And(pre) if pre else z3.BoolVal(True), g))
+    if isinstance(v, ImpliesV):
+        # assume the antecedent (plain part into the path condition, universal part as a quantified fact), prove the consequent
+        n_pc = len(it.pc)
+        assume_spec(it, v.antecedent, "antecedent")
+        extra = it.pc[n_pc:]
+        del it.pc[n_pc:]
+        it.pc += extra
+        try:
+            b = v.thunk()
+            sub_pre, g = goal_of(it, b)
+        finally:
+            del it.pc[n_pc:]
+        return list(extra) + sub_pre, g
     if isinstance(v, ExistsV):
         raise Unsupported("existential goal")
     if is_z3(v):
@@ -271,6 +284,7 @@ def verify_function(qualname, contract, schema, timeout_ms=10000, contracts=None
         if "make_env" in contract:
             env.update(contract["make_env"](it))  # contract-built pre-state (objects of concrete shape with symbolic contents)
         it.expr_stubs = contract.get("stubs")
+        it.call_stubs = contract.get("call_stubs")
         it.ghost_env = env
         it.func_stack.append(fi.qualname)
         # requires
@@ -357,13 +371,15 @@ def verify_function(qualname, contract, schema, timeout_ms=10000, contracts=None
             for i, entry in enumerate(contract.get("ensures", [])):
                 ename, expr = entry if isinstance(entry, tuple) else ("ensures[%d]" % i, entry)
                 try:
-                    v = it.eval(parse_expr(expr), dict(post_env))
-                    v = it.truth(v) if not isinstance(v, (ForallV, ExistsV, tuple, bool)) else v
                     saved = list(it.pc)
+                    saved_q = list(it.qfacts)
+                    v = it.eval(parse_expr(expr), dict(post_env))
+                    v = it.truth(v) if not isinstance(v, (ForallV, ExistsV, ImpliesV, tuple, bool)) else v
                     pre, goal = goal_of(it, v)
                     it.pc = saved + pre
                     it.oblige("post", "%s/%s" % (ename, pid), goal, None, expr)
                     it.pc = saved
+                    it.qfacts = saved_q
                 except Unsupported as u:
                     rep.unsupported.append("%s/%s: %s" % (ename, pid, u))
             # frame
@@ -759,7 +775,7 @@ def discharge(ob, timeout_ms=10000, rep=None):
         ob.note = "%s: %s" % (type(e).__name__, e)
         ob.seconds = time.time() - t0
         return ob
-    s = _solver(timeout_ms)
+    s = _solver(timeout_ms if ob.kind != "cover" else min(timeout_ms, 8000))
     s.add(*assumptions)
     goal = ob.goal
     if ob.kind != "cover":
@@ -783,7 +799,17 @@ def discharge(ob, timeout_ms=10000, rep=None):
         elif r == z3.unsat:
             ob.status = "vacuous"
         else:
-            ob.status = "unknown"
+            # the consistency of the lemma instances could not be decided within the budget: fall back to the path
+            # assumptions alone (what the path exploration itself relies on)
+            s0 = _solver(min(timeout_ms, 10000))
+            base0 = list(ob.assumptions)
+            for q in ob.qfacts:
+                base0 += q.instances(ob.index_terms)
+            s0.add(*base0)
+            s0.add(*core.list_axiom_instances(base0))
+            r0 = s0.check()
+            ob.status = "proved" if r0 == z3.sat else ("vacuous" if r0 == z3.unsat else "unknown")
+            ob.note = (ob.note or "") + " [cover decided without the sum-lemma instances: their joint consistency check timed out]"
     else:
         if r == z3.unsat:
             ob.status = "proved"
